@@ -317,6 +317,8 @@ def cases(tier, seed):
                     continue
                 seen.add(key)
                 idt = "\tID:Z:e%d" % len(lines) if rng.random() < 0.25 else ""
+                if idt and rng.random() < 0.3:
+                    idt = "\tID:Z:%s*%d" % (tname.split("*")[0], len(lines) + (0 if "*" not in tname else 4))          # an edge named like a copy of the segment (A*1, A*3, ...): the names of the copies must avoid each other
                 lines.append("L\t%s\t%s\t%s\t%s\t%s%s%s" % (a, oa, b, ob, cg, rng.choice(["", "\tRC:i:9", "\tKC:i:4\tMQ:i:3"]), idt))
             elif a != b or rng.random() < 0.3:
                 idt = "\tID:Z:e%d" % len(lines) if rng.random() < 0.25 else ""
